@@ -28,8 +28,12 @@ RULE_C01 = ("layouts = Type 4A/4B x FSCI x mapping version 1.0/2.0/3.0 (04h and 
             "boundaries, capacity-1, capacity, capacity+1, random; every length 0..capacity+1 for files up to 40 bytes; "
             "a case is distinct by (layout, length) and non-trivial when the fresh-activation read back was compared")
 RULE_C02 = ("(layout, old message, new message) x every cut k = 0..n after the k-th applied UPDATE BINARY; layouts put the "
-            "message on both sides of the one-command / chunked boundary (MLc 1..255, NLEN 2 and 4 bytes); non-trivial when "
-            "the fresh reader's view was classified")
+            "message on both sides of the one-command / chunked boundary (MLc 1..255, NLEN 2 and 4 bytes); a second class "
+            "announces MLc (and MLe) above the short APDU limits (MLc 256, 257, 300, 1000, 2048, FFFFh x MLe 255..FFFFh x "
+            "mapping 1.0/2.0/3.0 with NLEN and ENLEN) with new messages around the short-APDU limit (NLEN field + message = "
+            "254..257, 510, 511), around MLc (MLc-1..MLc+1) and between the two, old messages shorter, equal and longer, so "
+            "that 'fits MLc' and 'fits one short UPDATE BINARY' disagree; non-trivial when the fresh reader's view was "
+            "classified")
 RULE_C03 = ("(layout: mapping 1.0/2.0/3.0 with the 04h (NLEN 2) or 06h (ENLEN 4) control TLV, an unrelated EF, and a card "
             "behaviour: EF physically 16/2/1 bytes larger than the declared maximum file size and silently writable there, EF "
             "exactly the declared size, or larger EF with UPDATE BINARY range checked at the declared size; refusal SW 6700/"
@@ -51,7 +55,12 @@ RULE_C16 = ("operation (ndef read, has_changed, one-command and chunked write, i
             "every cell an operation that returns normally returns the fault free result or its documented failure value "
             "(None / False / has_changed True / shorter dump) and, with the fault free result, leaves the fault free memory")
 REQUIRED_C01 = ["t4t_roundtrips", "t4t_ref_reads", "t4t_oversize_rejected", "t4t_len_capacity", "t4t_len_zero"]
-REQUIRED_C02 = ["t4t_cuts", "t4t_cut_outcome_old", "t4t_cut_outcome_new", "t4t_cut_outcome_empty"]
+REQUIRED_C02 = ["t4t_cuts", "t4t_cut_outcome_old", "t4t_cut_outcome_new", "t4t_cut_outcome_empty",
+                "t4t_c02_mlc>255_cuts", "t4t_c02_mlc>255_within_mlc_midcuts", "t4t_c02_mlc>255_within_mlc_midcuts_nlen2",
+                "t4t_c02_mlc>255_within_mlc_midcuts_nlen4", "t4t_c02_mlc>255_within_mlc_midcuts_old_shorter",
+                "t4t_c02_mlc>255_within_mlc_midcuts_old_longer", "t4t_c02_mlc>255_first_length_beyond_short_apdu",
+                "t4t_c02_mlc>255_largest_length_within_mlc", "t4t_c02_mlc>255_single_short_apdu_writes",
+                "t4t_c02_mlc>255_above_mlc_writes"]
 REQUIRED_C03 = ["t4t_c03_ops", "t4t_c03_updates_inspected", "t4t_c03_bytes_diffed", "t4t_c03_format_wipe",
                 "t4t_c03_tlv04_writes_applied", "t4t_c03_tlv06_writes_applied",
                 "t4t_c03_tlv04_write_reaches_last_declared_byte", "t4t_c03_tlv06_write_reaches_last_declared_byte",
